@@ -24,7 +24,7 @@ def render(components, arrows, rng):
     return "@startuml\n" + "\n".join(lines) + "\n@enduml"
 
 
-def make_case(rng, comps_pool=gen.PLAIN, absent=None):
+def make_case(rng, comps_pool=gen.PLAIN, absent=None, nested=False):
     base = "p"
     kids = rng.sample([c for c in comps_pool if c != base], rng.randint(2, 6))
     if rng.random() < 0.25:
@@ -41,6 +41,12 @@ def make_case(rng, comps_pool=gen.PLAIN, absent=None):
     nodes = list(dict.fromkeys(nodes))
     ncomp = rng.randint(2, len(kids))
     comps = kids[:ncomp]
+    if nested:
+        # a package AND one of its sub packages drawn as two components (C07 speaks of every parsed diagram): what the generated
+        # rules demand is then decided rule by rule by the rule semantics (see nested_stream)
+        inner = [n[len(base) + 1:] for n in nodes if n.count(".") == 2 and n.split(".")[1] in comps]
+        if inner:
+            comps = comps + rng.sample(inner, min(len(inner), rng.randint(1, 2)))
     arrows = sorted({tuple(rng.sample(comps, 2)) for _ in range(rng.randint(0, 2 * ncomp))})
     # imports: mostly conforming, then perturbed
     imps = set()
@@ -191,6 +197,10 @@ def run(ctx: Ctx):
         cases = [make_case(rng, pool) for _ in range(ctx.size(8000, 200000))]
         judge(ctx, s, cases)
         s.finish()
+    if not ctx.violations:
+        s = Stream(ctx, "diagrams drawing a package and one of its sub packages as two components (judged by the rule semantics of the generated rules)")
+        nested_stream(ctx, s, ctx.size(3000, 60000))
+        s.finish()
     return RULE
 
 
@@ -199,3 +209,62 @@ def absent_component_stream(ctx, stream, n):
     rng = ctx.rng("absent-components")
     cases = [make_case(rng, gen.PLAIN, absent=True) for _ in range(n)]
     judge(ctx, stream, cases)
+
+
+def _generated_rules(case):
+    """the rules DependencyToRuleConverter derives from the drawn relation, as rule cases for the rule-level specification"""
+    base = case["base"]
+    full = lambda c: f"{base}.{c}"  # noqa: E731
+    deps = {}
+    for a, b in case["arrows"]:
+        deps.setdefault(a, set()).add(b)
+    rules = []
+    shape_pos = ("only" if case["only"] else "should", True, False, False)
+    for a, bs in deps.items():
+        rules.append(gen.rule_case(case["nodes"], case["imps"], shape_pos, "N", "N", [full(a)], sorted(full(b) for b in bs)))
+    for c in sorted(case["comps"]):
+        rest = set(case["comps"]) - {c} - deps.get(c, set())
+        if rest:
+            rules.append(gen.rule_case(case["nodes"], case["imps"], ("not", True, False, False), "N", "N", [full(c)], sorted(full(b) for b in rest)))
+    return rules
+
+
+def nested_stream(ctx, stream, n):
+    """diagrams that draw a package and one of its sub packages as two components: DiagramRule must pass exactly when every
+    generated pairwise rule holds under the documented rule semantics (Pta.C01.verdict_spec_parentFree covers named filters
+    with related names)"""
+    rng = ctx.rng("nested-components")
+    cases = []
+    while len(cases) < n:
+        c = make_case(rng, gen.PLAIN, absent=False, nested=True)
+        if any("." in x for x in c["comps"]):
+            cases.append(c)
+    impl = pmap(_impl, cases, ctx.jobs, chunk=100)
+    lines, owner = [], []
+    for k, c in enumerate(cases):
+        for r in _generated_rules(c):
+            lines.append(gen.rule_line(r))
+            owner.append(k)
+    ans = [parse_answer(a) for a in run_driver(lines)]
+    verdicts = {}
+    for k, a in zip(owner, ans):
+        d, sv = a.get("D", "-"), a.get("S", "NA").split(":")[0]
+        ok = len(d) >= 4 and d[0] == "w" and d[2] == "n" and d[3] == "p"
+        v = verdicts.setdefault(k, [True, True])
+        v[0] = v[0] and ok
+        v[1] = v[1] and sv == "PASS"
+    for k, (c, (again, reuse, iq, ib)) in enumerate(zip(cases, impl)):
+        stream.evaluations += 1
+        in_dom, expect = verdicts.get(k, [True, True])
+        icls = "FAIL" if iq.startswith("FAIL") else iq
+        stream.count(icls.split(":")[0] + ("" if in_dom else " (outside the oracle domain)"))
+        if not in_dom or icls.startswith("ERR"):
+            continue
+        stream.nontrivial.add(digest((c["nodes"], c["imps"], c["comps"], c["arrows"], c["only"])))
+        want = "PASS" if expect else "FAIL"
+        if icls != want or (ib.split(":")[0] != want):
+            ctx.violations.append({"kind": "property-violation",
+                                   "what": f"diagram with nested components: DiagramRule gives {icls} (with_base_module: {ib.split(':')[0]}), the pairwise rules it stands for give {want}",
+                                   "line": line_for(c), "impl_qualified": iq, "impl_with_base_module": ib, "diagram": _texts(c)[1]})
+            if len(ctx.violations) >= 3:
+                return
